@@ -285,7 +285,7 @@ func (x *exec) relations(step, ei, d, c int) {
 		return // iteration ends in a (deterministic) panic: the relations below are about complete sequences
 	}
 	cnt := x.solo("count("+text+")", d, c, "eval", 0)
-	if !cnt.Aborted() {
+	if !cnt.Aborted() && cnt.Kind != "cerr" {
 		want := valueOutcome(float64(len(sel.IDs)))
 		if cnt.Key() != want.Key() {
 			x.viol("relation", "relation:count", fmt.Sprintf("count(%s) on doc %d ctx %d = %s, Select yields %d nodes %v", text, d, c, clip(cnt.Key()), len(sel.IDs), sel.IDs), step)
@@ -293,7 +293,7 @@ func (x *exec) relations(step, ei, d, c int) {
 		}
 	}
 	rev := x.solo("reverse("+text+")", d, c, "select", 0)
-	if !rev.Aborted() {
+	if !rev.Aborted() && rev.Kind != "cerr" {
 		want := Outcome{Kind: "nodes", IDs: reversed(sel.IDs)}
 		if rev.Key() != want.Key() {
 			x.viol("relation", "relation:reverse", fmt.Sprintf("reverse(%s) on doc %d ctx %d yields %s, Select yields %s", text, d, c, clip(rev.Key()), clip(sel.Key())), step)
